@@ -114,7 +114,7 @@ class World(object):
         ap = compare.ap_from_scenario("A", sc["fields"], sc["levels"], ndims=ndims, cross=cross)
         if cfgseed % 5 == 0:
             # an index space that does not start at 0: the level-0 domain begins at a negative (or positive) index
-            gamma.shift_indices(ap, [[-8, -3, -16], [-4, 0, -1], [5, -2, 0]][(cfgseed // 5) % 3])
+            gamma.shift_indices(ap, [[-8, -3, -16], [-4, 0, -1], [5, -2, 0], [1000, 20000, 300000], [-100000, 4096, 65536]][(cfgseed // 5) % 5])
         d = self.free.pop() if self.free else os.path.join(self.chk.tmp(), "in")
         os.makedirs(os.path.dirname(d), exist_ok=True)
         reg = gamma.write_plotfile(d, ap, cfg_)
